@@ -3,6 +3,7 @@ import tables as T
 from cfg import cfg_of
 from flow import Taint, Tracker, callee_matches, field_reads, op_local, prep, backward
 from rules import CallGuard, CallSink, CmpGuard, RetSink, AggSink, BlockSink, FieldOptGuard
+from rules import PL
 from props.C04 import call_results, NRS, agg_field_operands
 from props.C01 import RS, WITHCFG, REMOVE, PUTV, HLC, LSC, store_rules
 import panics as P
@@ -72,7 +73,7 @@ def run(R):
 
         def inc_d(b):
             ta = Taint(b, through="all")
-            src = ta.closure({l for l in Taint(b).var_locals("incoming_record_key")})
+            src = ta.closure(PL(b, 1))  # (self, incoming_record_key)
             return Taint(b).closure({t["term"]["d"][0] for t in b.blocks if t["term"]["k"] == "call" and callee_matches(t["term"], ["ant_protocol::NetworkAddress::distance"])
                                      and any(op_local(a) in src for a in t["term"]["args"])})
         closer = CmpGuard(far_d, inc_d, "Ge", "farthest_distance >= distance(incoming)", close=False)
@@ -128,7 +129,7 @@ def run(R):
     if wi is not None:
         prep(wi)
         rr = [s for b in wi.blocks for s in b["stmts"] if s["rv"]["k"] == "agg" and s["rv"]["adt"].startswith("core::ops::range::Range")]
-        ok = len(rr) == 1 and rr[0]["rv"]["adt"] == "core::ops::range::RangeTo" and op_local(rr[0]["rv"]["ops"][0]) in Taint(wi).closure(Taint(wi).var_locals("range"))
+        ok = len(rr) == 1 and rr[0]["rv"]["adt"] == "core::ops::range::RangeTo" and op_local(rr[0]["rv"]["ops"][0]) in Taint(wi).closure(PL(wi, 1))
         rc = [b for b in wi.blocks if b["term"]["k"] == "call" and callee_matches(b["term"], ["alloc::collections::btree::map::BTreeMap::range"])]
         ok = ok and len(rc) == 1 and op_local(rc[0]["term"]["args"][0]) in Taint(wi).closure({d for d, r, p in field_reads(wi, "records_by_distance")})
         if ok:
